@@ -16,6 +16,10 @@ import (
 	"github.com/hashicorp/go-hclog"
 )
 
+// shutdownWriteGrace is how long connections may still write (e.g. the
+// notice of disconnection) after the server began to shut down.
+const shutdownWriteGrace = 1 * time.Second
+
 // Server is an ldap server that you can add a mux (multiplexer) router to and
 // then run it to accept and process requests.
 type Server struct {
@@ -225,6 +229,22 @@ func (s *Server) Run(addr string, opt ...Option) error {
 					}
 				}()
 			}
+			// a read or write that is blocked on the client would keep Stop()
+			// waiting for as long as the client holds the connection open, so
+			// interrupt the connection's pending I/O once the server is
+			// shutting down.
+			connDone := make(chan struct{})
+			defer close(connDone)
+			go func() {
+				select {
+				case <-s.shutdownCtx.Done():
+					_ = c.SetReadDeadline(time.Now())
+					// leave a moment for in-flight responses and the notice
+					// of disconnection to be written
+					_ = c.SetWriteDeadline(time.Now().Add(shutdownWriteGrace))
+				case <-connDone:
+				}
+			}()
 			if s.readTimeout != 0 {
 				if err := c.SetReadDeadline(time.Now().Add(s.readTimeout)); err != nil {
 					s.logger.Error("unable to set read deadline", "op", op, "err", err.Error())
